@@ -66,6 +66,9 @@ def build(case):
     sv = case['sortvals']
     if case.get('big'):
         sv = [BIG[v % len(BIG)] for v in case['bigvals']]
+    if case.get('unsigned'):
+        import numpy as np
+        sv = [[np.uint8, np.uint16, np.uint32][case['unsigned'] % 3](v) for v in sv]  # e.g. a length read from a file
     exs = [{'id': i, 'v': sv[i], 'pay': {'nested': [i]}} for i in range(n)]
     if case['src'] == 'dict':
         keys = case['keys']
@@ -163,6 +166,23 @@ def check(case):
         return (n >= 3 and ties) or case['reverse'] or case['keyless']
     # groupby
     gid = case['gids']
+    if case.get('group_raises') is not None and n:
+        import lazy_dataset
+        bad = case['group_raises'] % n
+
+        def failing_group(e):
+            if e['id'] == bad:
+                raise lazy_dataset.FilterException('no group for this example')
+            return GIDS[gid[e['id']]]
+        try:
+            groups = ds.groupby(failing_group)
+            got = {k: [e['id'] for e in v] for k, v in groups.items()}
+        except BaseException as e:  # noqa: the failure of the group function surfaces
+            if isinstance(e, (KeyboardInterrupt, SystemExit)):
+                raise
+            return True
+        raise Violation('groupby-swallowed-error', f'{desc}\nthe group function failed for example {bad}; groupby '
+                                                   f'returned {got}')
     try:
         groups = ds.groupby(lambda e: GIDS[gid[e['id']]])
         lists = {k: list(v) for k, v in groups.items()}
@@ -220,9 +240,13 @@ def st_case(draw):
         if not case['keyless'] and draw(st.integers(0, 3)) == 0:
             case['big'] = True
             case['bigvals'] = draw(st.lists(st.integers(0, 7), min_size=8, max_size=8))
+        elif not case['keyless'] and draw(st.integers(0, 3)) == 0:
+            case['unsigned'] = draw(st.integers(1, 3))
     else:
         palette = draw(st.lists(st.integers(0, len(GIDS) - 1), min_size=1, max_size=4))
         case['gids'] = draw(st.lists(st.sampled_from(palette), min_size=8, max_size=8))
+        if draw(st.integers(0, 5)) == 0:
+            case['group_raises'] = draw(st.integers(0, 7))
     return case
 
 
